@@ -79,7 +79,7 @@ func c12r2(c *Ctx) {
 // c12r3: builder and parsers speak the same grammar: function (sep hex)*, sep constantly "@".
 func c12r3(c *Ctx) {
 	const rule = "C12-R3"
-	c.Rule(rule, "builder and parsers agree on the separator constant and the hex codec", 8)
+	c.Rule(rule, "builder and parsers agree on the separator constant and the hex codec", 9)
 	sepP, ok1 := c.P.ConstString("parsers", "atSeparator")
 	if !ok1 {
 		c.Anchor(rule, "separator constant parsers.atSeparator")
@@ -187,6 +187,15 @@ func c12r3(c *Ctx) {
 					} else {
 						c.Fail(rule, "violation", FuncName(fn), "strings.Split(…, "+t+")", c.P.InstrPos(call), "splits on something else than the separator constant")
 					}
+					// the subject of the split is the function's own string parameter, untouched: any trimming / rewriting before the split
+					// loses information the encoders put there (an empty last argument is a trailing separator)
+					if _, isPar := call.Call.Args[0].(*ssa.Parameter); isPar {
+						c.OK(rule, FuncName(fn), "strings.Split subject", c.P.InstrPos(call), "the input string itself: "+e.Term(call.Call.Args[0]))
+					} else {
+						c.FailX(Oblig{Rule: rule, Func: FuncName(fn), Construct: "strings.Split subject", Pos: c.P.InstrPos(call), Kind: "violation",
+							Detail:   "the tokenizer splits " + e.Term(call.Call.Args[0]) + ", not its input as given: what the builder / the built-in functions' encoder wrote (e.g. a trailing separator for an empty last argument) is altered before parsing, so parse(build(x)) != x",
+							Expected: "strings.Split(<the data parameter>, separator)"})
+					}
 				}
 			}
 		}
@@ -204,7 +213,12 @@ func c12r3(c *Ctx) {
 			for _, in := range b.Instrs {
 				if call, ok := in.(*ssa.Call); ok && CalleeName(call) == "encoding/hex.DecodeString" {
 					ndec++
-					c.OK(rule, FuncName(fn), "hex.DecodeString", c.P.InstrPos(call), "hex decoder")
+					e := c.P.Env(fn)
+					if _, isPar := call.Call.Args[0].(*ssa.Parameter); isPar || strings.Contains(e.Term(call.Call.Args[0]), "[") {
+						c.OK(rule, FuncName(fn), "hex.DecodeString", c.P.InstrPos(call), "decodes the token as given: "+e.Term(call.Call.Args[0]))
+					} else {
+						c.Fail(rule, "violation", FuncName(fn), "hex.DecodeString", c.P.InstrPos(call), "the token is rewritten before hex decoding: "+e.Term(call.Call.Args[0]))
+					}
 				}
 			}
 		}
